@@ -26,6 +26,13 @@ type zFollower struct {
 	cons   consensus.Consensus
 	sup    *vm.Supervisor
 	bridge protocol.ChainBridge
+	obs    followerObserver // optional: told about every gossip / delivery / restart and its outcome (s_sync_ns.go)
+}
+
+type followerObserver interface {
+	onGossip(b *nom.AccountBlock, err error)
+	onInsert(batch []*nom.DetailedMomentum, idx int, err error)
+	onRestart()
 }
 
 func newZFollower(dir string) (f *zFollower, err error) {
@@ -68,6 +75,9 @@ func (f *zFollower) open() error {
 // Restart closes the node and reopens it on the same directory (a new process as far as the ledger is concerned).
 func (f *zFollower) Restart() error {
 	f.close()
+	if f.obs != nil {
+		f.obs.onRestart()
+	}
 	var err error
 	if p := safely(func() { err = f.open() }); p != "" {
 		return fmt.Errorf("panic reopening follower: %s", p)
@@ -112,14 +122,20 @@ func digestDB(d db.DB) string {
 // InsertChain delivers a batch; panics of the real code are reported as errors.
 func (f *zFollower) InsertChain(batch []*nom.DetailedMomentum) (idx int, err error) {
 	if p := safely(func() { idx, err = f.bridge.InsertChain(batch) }); p != "" {
-		return -1, fmt.Errorf("panic: %s", p)
+		idx, err = -1, fmt.Errorf("panic: %s", p)
+	}
+	if f.obs != nil {
+		f.obs.onInsert(batch, idx, err)
 	}
 	return idx, err
 }
 
 func (f *zFollower) Gossip(blocks []*nom.AccountBlock) (err error) {
 	if p := safely(func() { err = f.bridge.AddAccountBlocks(blocks) }); p != "" {
-		return fmt.Errorf("panic: %s", p)
+		err = fmt.Errorf("panic: %s", p)
+	}
+	if f.obs != nil && len(blocks) == 1 {
+		f.obs.onGossip(blocks[0], err)
 	}
 	return err
 }
